@@ -209,7 +209,14 @@ func (or *ObjectRegistry) applyConfig(config map[string]string) {
 			continue
 		}
 
-		if prevEntity != nil {
+		if prevEntity != nil && prevEntity.Spec().Kind() != entity.Spec().Kind() {
+			// The kind changed under the same name: the new object can't inherit
+			// from an object of another kind (and may even belong to another
+			// category, i.e. to other watchers), so close the old one and
+			// create the new one.
+			deleted[name] = prevEntity
+			created[name] = entity
+		} else if prevEntity != nil {
 			updated[name] = entity
 		} else {
 			created[name] = entity
